@@ -258,6 +258,7 @@ class SeriesPoint:
 def valuation_at_least(nodes, scaling: dict, order: int, seed: int = 0, k: int = 3, extra: int = 6):
     """Decide: every node is O(lam^order) under the scaling.  Returns (ok, info).
     info on failure: index, the lowest power with a non-zero coefficient."""
+    k = k * dag.K_MULT
     nodes = [dag.tonode(n) for n in nodes]
     prime = dag.P
     for n in nodes:
